@@ -72,6 +72,9 @@ fn main() {
     if got == exp && got2 == exp { println!("REPLAY-OK") } else { println!("REPLAY-FAIL observed != expected") }
 }''' % (prog.name, inst, spec_parse.FOLD_EQ, err_ty, spec_parse.rust_expected(prog, inst), rs_str(s))
         return main, {'input': s}
+    def candidate_replay(self, ctx, prog, o):
+        from .. import lreplay
+        return lreplay.parse(prog, o.fn)
     def sample(self, ctx, prog, plan):
         c = plan[(prog.name, 'FromStr', 'from_str')]
         return {'program': prog.rust_source(), 'obligation': '%s::from_str' % prog.name, 'contract': {'ensures': [t for _, t in c.ensures]}}
